@@ -55,6 +55,11 @@ CHECKS = [
               "arrays, Union[array,str], tuple[array,int]) are checked in a context populated by earlier array checks; verdict and bindings must "
               "equal the reference model's.",
          note="trusted: vf/models/pytree.py + dimlang.py; leaf types with shape-dependent leaf boundaries excluded (documented don't-care)"),
+    dict(property_id="C09", level="exploration", design_ref="DESIGN.md §5 C09, §3.3",
+         technique="Hypothesis-generated (t, s, x, form) histories decided by a reference structure model (equality / composition / prefix / suffix) that is itself cross-checked against jax.tree_util; second engine over structure strings",
+         text="x is constructed from t and s so that each of the seven structure forms is accepted about as often as rejected; binding on first use, "
+              "comparison afterwards, AnnotationError for unbound names in composites, rollback and build-time validation of structure strings are checked.",
+         note="trusted: vf/models/pytree.py (cross-checked per case against jax.tree_util leaves/structure equality); don't-care strings listed in the evidence assumptions"),
 ]
 _pending = "check not built yet in this round (will be claimed once its machinery is committed)"
 NOT_APPLICABLE = [dict(property_id=f"C{i:02d}", reason=_pending) for i in range(1, 21)
